@@ -4,7 +4,8 @@
 use std::any::Any;
 use std::collections::{BTreeMap, HashMap};
 
-use pie::resource::map::{GetGlobalMap, MapEqualsChecker, MapKey};
+use pie::resource::map::{GetGlobalMap, MapEqualsChecker, MapKey, MapKeyObjToObj, MapKeyToObj, MapValueObj};
+use pie::trait_object::KeyObj;
 use pie::{Context, Pie, Resource, ResourceChecker, ResourceState, Task};
 use serde::{Deserialize, Serialize};
 use serde_json::{json, Value};
@@ -24,8 +25,56 @@ impl MapKey for KA { type Value = i64; }
 impl MapKey for KB { type Value = i64; }
 impl MapKey for KC { type Value = String; }
 
-/// Resource types that share one `Pie`: 0 = KA, 1 = KB, 2 = KC, 3 = R<0>, 4 = R<1>.
-pub const NRT: usize = 5;
+/// Inner key types of the trait-object keyed map `MapKeyObjToObj`: identical representation / hash / Debug-free
+/// equality per pair, and two field-less types (all boxed values of field-less types live at one address).
+#[derive(Clone, Copy, PartialEq, Eq, Hash, Debug)]
+pub struct DK1(pub u8);
+#[derive(Clone, Copy, PartialEq, Eq, Hash, Debug)]
+pub struct DK2(pub u8);
+#[derive(Clone, Copy, PartialEq, Eq, Hash, Debug)]
+pub struct DZ1;
+#[derive(Clone, Copy, PartialEq, Eq, Hash, Debug)]
+pub struct DZ2;
+/// Value types behind `Box<dyn MapValueObj>`.
+#[derive(Clone, Copy, PartialEq, Eq, Debug)]
+pub struct DV1(pub i64);
+#[derive(Clone, Copy, PartialEq, Eq, Debug)]
+pub struct DV2(pub i64);
+#[derive(Clone, Copy, PartialEq, Eq, Debug)]
+pub struct DOn;
+#[derive(Clone, Copy, PartialEq, Eq, Debug)]
+pub struct DOff;
+
+/// (inner key type, key byte) -> trait-object key. Field-less key types ignore the byte.
+fn dkey(kty: u8, key: u8) -> Box<dyn KeyObj> {
+  match kty % 5 { 0 => Box::new(DK1(key)), 1 => Box::new(DK2(key)), 2 => Box::new(DZ1), 3 => Box::new(DZ2), _ => Box::new(key) }
+}
+fn dkey_norm(kty: u8, key: u8) -> (u8, u8) { let t = kty % 5; (t, if t == 2 || t == 3 { 0 } else { key }) }
+fn dkey_render(k: &dyn KeyObj) -> (u8, u8) {
+  let a = k.as_any();
+  if let Some(x) = a.downcast_ref::<DK1>() { return (0, x.0); }
+  if let Some(x) = a.downcast_ref::<DK2>() { return (1, x.0); }
+  if a.is::<DZ1>() { return (2, 0); }
+  if a.is::<DZ2>() { return (3, 0); }
+  if let Some(x) = a.downcast_ref::<u8>() { return (4, *x); }
+  (255, 255)
+}
+fn dval(vty: u8, val: i64) -> Box<dyn MapValueObj> {
+  match vty % 4 { 0 => Box::new(DV1(val)), 1 => Box::new(DV2(val)), 2 => Box::new(DOn), _ => Box::new(DOff) }
+}
+fn dval_norm(vty: u8, val: i64) -> (u8, i64) { let t = vty % 4; (t, if t >= 2 { 0 } else { val }) }
+fn dval_render(v: &dyn MapValueObj) -> (u8, i64) {
+  let a = v.as_any();
+  if let Some(x) = a.downcast_ref::<DV1>() { return (0, x.0); }
+  if let Some(x) = a.downcast_ref::<DV2>() { return (1, x.0); }
+  if a.is::<DOn>() { return (2, 0); }
+  if a.is::<DOff>() { return (3, 0); }
+  (255, -1)
+}
+
+/// Resource types that share one `Pie`: 0 = KA, 1 = KB, 2 = KC, 3 = R<0>, 4 = R<1>, 5 = MapKeyObjToObj (trait-object
+/// keys and values), 6 = MapKeyToObj<KA> (typed keys, trait-object values).
+pub const NRT: usize = 7;
 
 #[derive(Clone, Copy, Debug, PartialEq, Eq, Serialize, Deserialize)]
 pub enum StKind { Map, I32, Str }
@@ -52,6 +101,11 @@ pub enum StOp {
   /// function before storing, 1 inside it after storing `val`, 2 after the write returned. The panic is caught and the
   /// same Pie is used further: everything stored so far (and the completed part of the write) must still be there.
   CrashTask { kt: u8, key: u8, val: i64, when: u8 },
+  /// Operations on the trait-object maps (`obj`: false = `MapKeyObjToObj`, true = `MapKeyToObj<KA>`): how = 0 direct
+  /// insert, 1 direct remove, 2 `Resource::read`, 3 writer insert, 4 writer get, 5 writer entry-remove, 6 stamp by
+  /// three routes into `slot`, 7 check the stamp in `slot`, 8 a task that reads the key through the context and copies
+  /// what it saw to key byte + 10 (same inner key type) through the context.
+  Dyn { obj: bool, how: u8, kty: u8, key: u8, vty: u8, val: i64, slot: u8 },
 }
 
 #[derive(Clone, Debug, Serialize, Deserialize)]
@@ -67,6 +121,8 @@ enum MState {
   I32(i32),
   Str(String),
   World,
+  /// (inner key type, key byte) -> (value type, value).
+  MapD(BTreeMap<(u8, u8), (u8, i64)>),
 }
 
 #[derive(Clone, Default)]
@@ -76,8 +132,8 @@ fn sval(v: i64) -> String { format!("s{v}") }
 
 /// Ensures the state of map resource type `kt` is a map (what `get_global_map(_mut)` does).
 fn ensure_map(m: &mut Model, kt: usize) {
-  let is_map = matches!((&m.st[kt], kt), (Some(MState::MapI(_)), 0 | 1) | (Some(MState::MapS(_)), 2));
-  if !is_map { m.st[kt] = Some(if kt == 2 { MState::MapS(BTreeMap::new()) } else { MState::MapI(BTreeMap::new()) }); }
+  let is_map = matches!((&m.st[kt], kt), (Some(MState::MapI(_)), 0 | 1) | (Some(MState::MapS(_)), 2) | (Some(MState::MapD(_)), 5 | 6));
+  if !is_map { m.st[kt] = Some(if kt >= 5 { MState::MapD(BTreeMap::new()) } else if kt == 2 { MState::MapS(BTreeMap::new()) } else { MState::MapI(BTreeMap::new()) }); }
 }
 
 #[derive(Clone, PartialEq, Eq, Hash, Debug)]
@@ -102,6 +158,27 @@ impl Task for Copy {
         c.write(&KC(self.dst), MapEqualsChecker, |w| { match &v { Some(v) => { w.insert(format!("{v}+")); } None => { if let std::collections::hash_map::Entry::Occupied(e) = w.entry() { e.remove(); } } } Ok(()) }).unwrap();
         n
       }
+    }
+  }
+}
+
+/// Task over the trait-object maps: reads a key through the context and copies what it saw to key byte + 10.
+#[derive(Clone, PartialEq, Eq, Hash, Debug)]
+struct DynCopy { obj: bool, kty: u8, key: u8 }
+impl Task for DynCopy {
+  type Output = Option<(u8, i64)>;
+  fn execute<C: Context>(&self, c: &mut C) -> Self::Output {
+    use std::collections::hash_map::Entry;
+    if self.obj {
+      let v: Option<Box<dyn MapValueObj>> = c.read(&MapKeyToObj(KA(self.key)), MapEqualsChecker).unwrap().cloned();
+      let out = v.as_ref().map(|b| dval_render(b.as_ref()));
+      c.write(&MapKeyToObj(KA(self.key + 10)), MapEqualsChecker, |w| { match v { Some(b) => { w.insert(b); } None => { if let Entry::Occupied(e) = w.entry() { e.remove(); } } } Ok(()) }).unwrap();
+      out
+    } else {
+      let v: Option<Box<dyn MapValueObj>> = c.read(&MapKeyObjToObj(dkey(self.kty, self.key)), MapEqualsChecker).unwrap().cloned();
+      let out = v.as_ref().map(|b| dval_render(b.as_ref()));
+      c.write(&MapKeyObjToObj(dkey(self.kty, self.key + 10)), MapEqualsChecker, |w| { match v { Some(b) => { w.insert(b); } None => { if let Entry::Occupied(e) = w.entry() { e.remove(); } } } Ok(()) }).unwrap();
+      out
     }
   }
 }
@@ -139,10 +216,12 @@ fn observe(pie: &Pie<()>) -> Vec<Option<MState>> {
       0 => any.downcast_ref::<HashMap<KA, i64>>().map(|m| MState::MapI(m.iter().map(|(k, v)| (k.0, *v)).collect())),
       1 => any.downcast_ref::<HashMap<KB, i64>>().map(|m| MState::MapI(m.iter().map(|(k, v)| (k.0, *v)).collect())),
       2 => any.downcast_ref::<HashMap<KC, String>>().map(|m| MState::MapS(m.iter().map(|(k, v)| (k.0, v.clone())).collect())),
+      5 => any.downcast_ref::<HashMap<MapKeyObjToObj, Box<dyn MapValueObj>>>().map(|m| MState::MapD(m.iter().map(|(k, v)| (dkey_render(k.0.as_ref()), dval_render(v.as_ref()))).collect())),
+      6 => any.downcast_ref::<HashMap<MapKeyToObj<KA>, Box<dyn MapValueObj>>>().map(|m| MState::MapD(m.iter().map(|(k, v)| ((0, k.0 .0), dval_render(v.as_ref()))).collect())),
       _ => None,
     }.or(Some(MState::Str("<unknown state type>".into())))
   }
-  vec![one::<KA>(pie, 0), one::<KB>(pie, 1), one::<KC>(pie, 2), one::<R<0>>(pie, 3), one::<R<1>>(pie, 4)]
+  vec![one::<KA>(pie, 0), one::<KB>(pie, 1), one::<KC>(pie, 2), one::<R<0>>(pie, 3), one::<R<1>>(pie, 4), one::<MapKeyObjToObj>(pie, 5), one::<MapKeyToObj<KA>>(pie, 6)]
 }
 
 macro_rules! with_rt {
@@ -152,7 +231,9 @@ macro_rules! with_rt {
       1 => { let $rs = $pie.resource_state_mut::<KB>(); $body }
       2 => { let $rs = $pie.resource_state_mut::<KC>(); $body }
       3 => { let $rs = $pie.resource_state_mut::<R<0>>(); $body }
-      _ => { let $rs = $pie.resource_state_mut::<R<1>>(); $body }
+      4 => { let $rs = $pie.resource_state_mut::<R<1>>(); $body }
+      5 => { let $rs = $pie.resource_state_mut::<MapKeyObjToObj>(); $body }
+      _ => { let $rs = $pie.resource_state_mut::<MapKeyToObj<KA>>(); $body }
     }
   };
 }
@@ -267,11 +348,20 @@ impl Engine for StateEngine {
     let n = rng.range(3, 40) as usize;
     let w_raw = rng.range(0, 5);
     let nkeys = rng.range(1, 3);
+    let w_dyn = *rng.pick(&[0u64, 0, 20, 40, 70]);
     let mut ops = vec![];
     for _ in 0..n {
       let kt = rng.below(3) as u8;
       let key = if rng.chance(12) { 10 + rng.below(nkeys) as u8 } else { rng.below(nkeys) as u8 };
       let val = rng.below(5) as i64;
+      if rng.chance(w_dyn) {
+        let obj = rng.chance(30);
+        let how = *rng.pick(&[0u8, 0, 1, 2, 2, 3, 4, 5, 6, 7, 7, 8]);
+        // Tasks copy to key byte + 10 of the same inner key type: only types that carry the byte.
+        let kty = if how == 8 { *rng.pick(&[0u8, 1, 4]) } else { rng.below(5) as u8 };
+        ops.push(StOp::Dyn { obj, how, kty: if obj { 0 } else { kty }, key: key % 10, vty: rng.below(4) as u8, val, slot: rng.below(4) as u8 });
+        continue;
+      }
       let op = match rng.below(11 + w_raw) {
         0..=1 => StOp::DirectInsert { kt, key, val },
         2 => StOp::DirectRemove { kt, key },
@@ -293,6 +383,7 @@ impl Engine for StateEngine {
     let mut pie: Pie<()> = Pie::default();
     let mut model = Model { st: vec![None; NRT] };
     let mut slots: BTreeMap<u8, (u8, u8, SVal)> = BTreeMap::new();
+    let mut dslots: BTreeMap<u8, (bool, (u8, u8), Option<(u8, i64)>)> = BTreeMap::new();
     let mut fp = 0xcbf2_9ce4_8422_2325u64;
     let mut vs: Vec<Violation> = vec![];
     let mut cross = false;
@@ -401,6 +492,64 @@ impl Engine for StateEngine {
             if got != exp { return Some(format!("task reading key {src} of key type {kt} through the context saw {:?}, model {:?}", got, exp)); }
             None
           }
+          StOp::Dyn { obj, how, kty, key, vty, val, slot } => {
+            let rt = if obj { 6 } else { 5 };
+            let (nk, nv) = (dkey_norm(if obj { 0 } else { kty }, key), dval_norm(vty, val));
+            if how != 7 { ensure_map(&mut model, rt); }
+            macro_rules! dynop {
+              ($K:ty, $mk:expr, $mk10:expr) => {{
+                let k: $K = $mk;
+                let Some(MState::MapD(x)) = model.st[rt].as_mut() else { unreachable!() };
+                let rend = |o: Option<&Box<dyn MapValueObj>>| o.map(|b| dval_render(b.as_ref()));
+                match how {
+                  0 => { let g = pie.resource_state_mut::<$K>().get_global_map_mut().insert(k, dval(vty, val)); let e = x.insert(nk, nv); if rend(g.as_ref()) != e { return Some(format!("direct insert of trait-object key {:?} returned {:?}, model {:?}", nk, rend(g.as_ref()), e)); } }
+                  1 => { let g = pie.resource_state_mut::<$K>().get_global_map_mut().remove(&k); let e = x.remove(&nk); if rend(g.as_ref()) != e { return Some(format!("direct remove of trait-object key {:?} returned {:?}, model {:?}", nk, rend(g.as_ref()), e)); } }
+                  2 => { let g = rend(k.read(pie.resource_state_mut::<$K>()).unwrap()); let e = x.get(&nk).copied(); if g != e { return Some(format!("read of trait-object key {:?} returned {:?}, model {:?}", nk, g, e)); } }
+                  3 | 4 | 5 => {
+                    let mut w = k.write(pie.resource_state_mut::<$K>()).unwrap();
+                    let (g, e) = match how {
+                      3 => (rend(w.insert(dval(vty, val)).as_ref()), x.insert(nk, nv)),
+                      4 => (rend(w.get()), x.get(&nk).copied()),
+                      _ => (if let std::collections::hash_map::Entry::Occupied(o) = w.entry() { rend(Some(&o.remove())) } else { None }, x.remove(&nk)),
+                    };
+                    let (gv, ev) = (rend(w.get()), x.get(&nk).copied());
+                    if g != e || gv != ev { return Some(format!("writer op {how} on trait-object key {:?} returned {:?} (then sees {:?}), model {:?} (then {:?})", nk, g, gv, e, ev)); }
+                  }
+                  6 => {
+                    let e = x.get(&nk).copied();
+                    let s1 = MapEqualsChecker.stamp(&k, pie.resource_state_mut::<$K>()).unwrap();
+                    let s2 = { let mut rd = k.read(pie.resource_state_mut::<$K>()).unwrap(); MapEqualsChecker.stamp_reader(&k, &mut rd).unwrap() };
+                    let s3 = { let w = k.write(pie.resource_state_mut::<$K>()).unwrap(); MapEqualsChecker.stamp_writer(&k, w).unwrap() };
+                    if s1 != s2 || s2 != s3 { return Some(format!("stamp routes disagree for trait-object key {:?}: {:?} / {:?} / {:?}", nk, s1, s2, s3)); }
+                    if rend(s1.as_ref()) != e { return Some(format!("stamp of trait-object key {:?} is {:?}, model {:?}", nk, rend(s1.as_ref()), e)); }
+                    dslots.insert(slot, (obj, nk, e));
+                  }
+                  7 => {}
+                  _ => {
+                    // The task: (obj, inner key type, key byte); reads nk, writes key byte + 10.
+                    let seen = x.get(&nk).copied();
+                    let dst = (nk.0, nk.1 + 10);
+                    match seen { Some(v) => { x.insert(dst, v); } None => { x.remove(&dst); } }
+                    let _ = $mk10;
+                    let got = pie.new_session().require(&DynCopy { obj, kty: nk.0, key: nk.1 });
+                    if got != seen { return Some(format!("task reading trait-object key {:?} through the context saw {:?}, model {:?}", nk, got, seen)); }
+                  }
+                }
+              }};
+            }
+            if how == 7 {
+              // Check a remembered stamp against the current value of its key.
+              let Some((sobj, snk, stamped)) = dslots.get(&slot).cloned() else { return None; };
+              let srt = if sobj { 6 } else { 5 };
+              ensure_map(&mut model, srt);
+              let Some(MState::MapD(x)) = model.st[srt].as_ref() else { unreachable!() };
+              let cur = x.get(&snk).copied();
+              let stamp: Option<Box<dyn MapValueObj>> = stamped.map(|(t, v)| dval(t, v));
+              let got = if sobj { MapEqualsChecker.check(&MapKeyToObj(KA(snk.1)), pie.resource_state_mut::<MapKeyToObj<KA>>(), &stamp).unwrap().is_some() } else { MapEqualsChecker.check(&MapKeyObjToObj(dkey(snk.0, snk.1)), pie.resource_state_mut::<MapKeyObjToObj>(), &stamp).unwrap().is_some() };
+              if got != (cur != stamped) { return Some(format!("equality checker says inconsistent={got} for trait-object key {:?}: stamped {:?}, current {:?}", snk, stamped, cur)); }
+            } else if obj { dynop!(MapKeyToObj<KA>, MapKeyToObj(KA(nk.1)), ()) } else { dynop!(MapKeyObjToObj, MapKeyObjToObj(dkey(nk.0, nk.1)), ()) }
+            None
+          }
           StOp::CrashTask { kt, key, val, when } => {
             let task = Crasher { kt, key: 20 + key, val, when };
             let r = catch(|| pie.new_session().require(&task));
@@ -432,14 +581,14 @@ impl Engine for StateEngine {
       let obs = observe(&pie);
       if obs != model.st {
         let which = (0..NRT).find(|i| obs[*i] != model.st[*i]).unwrap_or(0);
-        let touched = match op { StOp::Raw { rt, .. } => *rt as usize, StOp::DirectInsert { kt, .. } | StOp::DirectRemove { kt, .. } | StOp::Read { kt, .. } | StOp::Writer { kt, .. } | StOp::Stamp { kt, .. } | StOp::CopyTask { kt, .. } | StOp::CrashTask { kt, .. } => *kt as usize, StOp::Check { slot } => slots.get(slot).map(|s| s.0 as usize).unwrap_or(0) };
+        let touched = match op { StOp::Raw { rt, .. } => *rt as usize, StOp::DirectInsert { kt, .. } | StOp::DirectRemove { kt, .. } | StOp::Read { kt, .. } | StOp::Writer { kt, .. } | StOp::Stamp { kt, .. } | StOp::CopyTask { kt, .. } | StOp::CrashTask { kt, .. } => *kt as usize, StOp::Dyn { obj, .. } => if *obj { 6 } else { 5 }, StOp::Check { slot } => slots.get(slot).map(|s| s.0 as usize).unwrap_or(0) };
         vs.push(Violation::new(&["C14"], if which == touched { "state-content" } else { "state-isolation" }, step, format!("after {:?} the state of resource type {which} is {:?}, model {:?}", op, obs[which], model.st[which])));
         break;
       }
       if model.st.iter().filter(|s| s.is_some()).count() >= 3 { cross = true; }
-      stats.hit(match op { StOp::Raw { .. } => "op_raw", StOp::CopyTask { .. } => "op_task", StOp::CrashTask { .. } => "fault_task_panic_in_write", StOp::Check { .. } => "op_check", StOp::Stamp { .. } => "op_stamp", StOp::Writer { .. } => "op_writer", StOp::Read { .. } => "op_read", _ => "op_direct" });
+      stats.hit(match op { StOp::Raw { .. } => "op_raw", StOp::CopyTask { .. } => "op_task", StOp::CrashTask { .. } => "fault_task_panic_in_write", StOp::Dyn { how: 8, .. } => "op_dyn_task", StOp::Dyn { how: 7, .. } => "op_dyn_check", StOp::Dyn { .. } => "op_dyn", StOp::Check { .. } => "op_check", StOp::Stamp { .. } => "op_stamp", StOp::Writer { .. } => "op_writer", StOp::Read { .. } => "op_read", _ => "op_direct" });
     }
-    out.nontrivial = cross && scn.ops.iter().any(|o| matches!(o, StOp::Check { .. }));
+    out.nontrivial = cross && scn.ops.iter().any(|o| matches!(o, StOp::Check { .. } | StOp::Dyn { how: 7, .. }));
     out.fingerprint = fp;
     out.trace_hash = fp;
     out.stats = stats;
@@ -457,7 +606,7 @@ impl Engine for StateEngine {
 
   fn components(&self) -> Value {
     json!({
-      "real": ["pie::resource::map (MapKey blanket Resource impl, MapWriter, GetGlobalMap, MapEqualsChecker)", "pie::trait_object::collection::TypeToAnyMap through Pie::resource_state(_mut)", "Context::read/write for map keys inside a session"],
+      "real": ["pie::resource::map (MapKey blanket Resource impl, MapWriter, GetGlobalMap, MapEqualsChecker, MapKeyToObj, MapKeyObjToObj, MapValueObj)", "pie::trait_object::collection::TypeToAnyMap through Pie::resource_state(_mut)", "Context::read/write for map keys inside a session"],
       "stub": ["nothing: all state lives in the real Pie instance"],
       "reference_model": "map from resource type to (state type, content)",
     })
